@@ -64,6 +64,17 @@ def run(ctx):
     n += C08.radius_rule(ctx, 'R02.12')
     n += geomlib.iou_rule(ctx, 'R02.12')
     ctx.floor('R02.12', n, 14)
+    from props import C09
+    ctx.rule('R02.14', 'the assignment is sized by the real number of stored tracks and judges expiry on the epoch of this '
+                       'call: shard_stats reports len() of every shard under a blocking lock; predict advances the scene '
+                       'epoch exactly once before candidates are compared')
+    C09.r8(ctx, 'R02.14')
+    n = T.rule_predict_epoch(ctx, 'R02.14')
+    ctx.floor('R02.14', n, 4)
+    ctx.rule('R02.13', 'the squared Mahalanobis distance the gate compares is the textbook one: distance() of the box filter in '
+                       'normal form, no component of the residual rewritten in place (clauses R07.11 / R07.12 of C07)')
+    n = C07.recurrence_rule(ctx, 'R02.13') + C07.no_element_patch_rule(ctx, 'R02.13')
+    ctx.floor('R02.13', n, 20)
 
 
 def _wiring(ctx):
